@@ -5,6 +5,8 @@ package query
 //verif:setup VerifC12Setup
 //verif:harness VerifC12Parallel mode=bv tier=quick split=8
 //verif:harness VerifC12ParallelJoin mode=bv tier=quick split=4
+//verif:setup VerifC12DMLSetup
+//verif:harness VerifC12ParallelDML mode=bv tier=quick split=6
 
 import (
 	"github.com/mithrandie/csvq/lib/parser"
@@ -141,5 +143,78 @@ func VerifC12ParallelJoin() {
 		verifAssert("same pair at the same position", verifSamePrimary(want[r][0], got[r][0]) && verifSamePrimary(want[r][1], got[r][1]))
 	}
 	verifObserve("rows", int64(len(got)))
+	verifReach("end")
+}
+
+var verifC12DMLSrc = []string{
+	"alter table t add (w default id * 10 + k)",
+	"alter table t add (w default k, v default id) after id",
+	"update t set k = id + k where id < @x + 1",
+	"delete from t where k = 0",
+	"insert into t select id + 10, k from t where k = 1",
+	"alter table t drop k",
+}
+var verifC12DML [][]parser.Statement
+var verifC12DMLSel parser.SelectQuery
+
+func VerifC12DMLSetup() {
+	for _, s := range verifC12DMLSrc {
+		verifC12DML = append(verifC12DML, verifParse(s+";"))
+	}
+	verifC12DMLSel = verifParseSelect("select * from t")
+}
+
+// Data-changing statements whose per-row work is split over goroutines (ALTER TABLE ADD evaluates
+// the default of every row, UPDATE/DELETE evaluate their conditions): the table after the statement
+// is the same with one worker and with two (thorough three) under every order in which the workers
+// run (thorough: plus one preemption).
+func VerifC12ParallelDML() {
+	si := verifChoice("statement", len(verifC12DMLSrc))
+	n := verifBound(3, 4)
+	keys := make([]int64, n)
+	for i := range keys {
+		keys[i] = int64(verifChoice("k", 2))
+	}
+	run := func(cpu int, explore bool) ([][]value.Primary, error) {
+		tx := verifNewTx()
+		tx.Flags.Quiet = true
+		tx.Flags.CPU = cpu
+		proc := NewProcessor(tx)
+		scope := proc.ReferenceScope
+		rows := make([][]value.Primary, n)
+		for i := range rows {
+			rows[i] = []value.Primary{value.NewInteger(int64(i)), value.NewInteger(keys[i])}
+		}
+		verifTempTable(scope, "t", []string{"id", "k"}, rows)
+		verifVar(scope, "x", value.NewInteger(1))
+		verifSchedules(explore)
+		verifMapOrder(explore)
+		_, err := proc.Execute(verifCtx(), verifC12DML[si])
+		verifSchedules(false)
+		verifMapOrder(false)
+		if err != nil {
+			return nil, err
+		}
+		view, err := Select(verifCtx(), scope, verifC12DMLSel)
+		if err != nil {
+			return nil, err
+		}
+		return verifRowsOf(view), nil
+	}
+	gm := GetGoroutineManager()
+	gm.MinimumRequiredPerCore = 1
+	verifPreemptions(verifBound(0, 1))
+	workers := verifBound(2, 3)
+	want, err1 := run(1, false)
+	got, err2 := run(workers, true)
+	verifAssert("both runs succeed", err1 == nil && err2 == nil)
+	verifAssert("same number of rows for one and for several workers", len(want) == len(got))
+	for r := 0; r < len(want) && r < len(got); r++ {
+		verifAssert("same row width", len(want[r]) == len(got[r]))
+		for c := 0; c < len(want[r]) && c < len(got[r]); c++ {
+			verifAssert("same value at the same position for one and for several workers", verifSamePrimary(want[r][c], got[r][c]))
+		}
+	}
+	verifObserve("rows", int64(len(want)))
 	verifReach("end")
 }
